@@ -27,6 +27,7 @@ type keySys struct {
 	serial int
 	// originAge: Age header the origin adds to cacheable answers ("" = none)
 	originAge string
+	sMaxAge   bool // the origin states the lifetime as s-maxage instead of max-age
 	lastObs   string
 	// store: "" none, "ttl" store that expires records itself, "lazy" store that hands back expired records
 	store   string
@@ -63,6 +64,9 @@ func (s *keySys) Reset() {
 		switch s.answer.Ans {
 		case "cacheable":
 			r := env.Cacheable(oc, s.answer.T, "p")
+			if s.sMaxAge {
+				r.Header.Set("Cache-Control", fmt.Sprintf("public, s-maxage=%d, max-age=1000", s.answer.T))
+			}
 			if s.originAge != "" {
 				r.Header.Set("Age", s.originAge)
 			}
